@@ -218,6 +218,8 @@ def exec_field(case):
     v1, v2, base = FIELDS[field]
     if case.get("base") == "bitmap":  # the same option in a bitmap build (its observable is the same; nothing else may move)
         base = dict(BITMAP)
+    elif case.get("base"):  # ... or under another outline flavour, e.g. {"color_format": "cff2_colr_1", "output_file": "Out.otf"}
+        base = dict(case["base"])
     glyphs = sources(stick=field == "clip_to_viewbox")
     srcs_text = [(f"emoji_u{'_'.join('%04x' % c for c in g.cps)}.svg", g.svg()) for g in glyphs]
     file_cfg = dict(base)
@@ -358,6 +360,9 @@ def run(report, tier, only=None):
     if only in (None, "fields"):
         cases = [{"kind": "field", "field": f, "mode": m} for f in FIELDS for m in ("flag", "file", "both", "omitted")]
         # the metric options once more in a bitmap build
+        # keep_glyph_names reaches `post` in every outline flavour (CFF 1 keeps names in its own charset whatever the option says and is left out; CFF2 and glyf rely on post)
+        cases += [{"kind": "field", "field": "keep_glyph_names", "mode": m, "base": {"color_format": f, "output_file": "Out.otf"}}
+                  for f in ("cff2_colr_1", "cff2_colr_0") for m in ("flag", "both", "omitted")]
         cases += [{"kind": "field", "field": f, "mode": m, "base": "bitmap"} for f in ("linegap", "upem", "ascender", "descender", "family") for m in ("flag", "both")]
         listing.run(report, cases, execute, timeout=600, jobs=6)
     if only in (None, "pairs"):
